@@ -140,14 +140,14 @@ class Gen:
                 s = r.choice(STATICS)
                 u.free.add(s)
                 u.body.append("%s = %s + 1;" % (s, s))
-            elif k < 0.85:
+            elif k < 0.80:
                 u.body.append('echo("%s:" + %s);' % (u.name, self.int_expr(u)))
-            elif k < 0.93 and u.locals:
+            elif k < 0.87 and u.locals:
                 v = r.choice(u.locals)
                 u.body.append("if ({%s} > %d) {" % (v, r.randint(0, 20)))
                 u.body.append("    {%s} = {%s} - %d;" % (v, v, r.randint(1, 5)))
                 u.body.append("}")
-            elif k < 0.965 and u.kind in ("function", "main", "method"):
+            elif k < 0.92 and u.kind in ("function", "main", "method"):
                 # an object that dies in the middle of this unit (block exit or destroy): its destructors
                 # run while this unit's locals are live
                 t = self.fresh("t")
@@ -337,7 +337,7 @@ def run(ctx):
     ctx.rule = RULE
     ctx.assumptions = ASSUMPTIONS
     binary = build.build("bloch", "asan")
-    nprog = ctx.n(40, 700)
+    nprog = ctx.n(60, 700)
     cap = ctx.n(24, 60)
     jobs = []
     for i in range(nprog):
